@@ -218,3 +218,9 @@ CASES += [
  dict(id='colours-from-one', kind='fire', file=G, old='for color in 0..num_colors {', new='for color in 1..num_colors {', expect={'C18': 'colour range'}),
  dict(id='colours-map-swap', kind='fire', file=G, old='vertex_map.insert(v2.clone(), edge.1.clone());', new='vertex_map.insert(v2.clone(), edge.0.clone());', expect={'C18': 'product vertices'}),
 ]
+
+CASES += [
+ dict(id='simplify-ptr-eq', kind='fire', file=B, old='BDD::Choice(t, _, f) if t.as_ref() == f.as_ref() => Rc::clone(t),', new='BDD::Choice(t, _, f) if Rc::ptr_eq(t, f) => Rc::clone(t),', expect={'C02': 'E2'}),
+ # pointer identity as a fast path in front of the structural test is correct
+ dict(id='simplify-ptr-eq-fastpath', kind='silent', file=B, old='BDD::Choice(t, _, f) if t.as_ref() == f.as_ref() => Rc::clone(t),', new='BDD::Choice(t, _, f) if Rc::ptr_eq(t, f) || t.as_ref() == f.as_ref() => Rc::clone(t),', checks=['C02', 'C03', 'C13']),
+]
